@@ -22,10 +22,12 @@ inductive Err
   | assertion    -- AssertionError("insufficient balance")
   | zeroDiv      -- ZeroDivisionError (float division by zero)
   | runtime      -- RuntimeError (UsdDeltaExceedsPoolValue / negative sum)
+  | overflow     -- OverflowError (float `x ** y` whose result leaves the double range)
 deriving DecidableEq, Repr
 
 def Err.name : Err → String
   | .demeter => "DemeterError" | .assertion => "AssertionError" | .zeroDiv => "ZeroDivisionError" | .runtime => "RuntimeError"
+  | .overflow => "OverflowError"
 
 /-- the non-field operations of the number type -/
 structure Ops (α : Type) where
@@ -137,16 +139,26 @@ def impactOfParams (o : Ops α) (cfg : Config α) (p : PoolParams α) : α × Bo
     let delta := diff posImpact negImpact
     (toSigned delta (decide (posImpact > negImpact)), false)
 
+/-- CPython's `float ** float` raises `OverflowError` when both operands are finite and the result is not (C `pow` sets ERANGE);
+    infinite or NaN operands propagate silently.  Never the case for rationals. -/
+def powRaises (o : Ops α) (x y : α) : Bool := o.isFinite x && o.isFinite y && !o.isFinite (o.pow x y)
+
+/-- does one of the two `applyImpactFactor` calls of `_getPriceImpactUsd` raise -/
+def impactPowRaises (o : Ops α) (cfg : Config α) (p : PoolParams α) : Bool :=
+  powRaises o (diff p.a p.b) cfg.impactExponent || powRaises o (diff p.nextA p.nextB) cfg.impactExponent
+
 /-- `SwapPriceUtils.getPriceImpactUsd` for a deposit (token A = long, virtual inventory included).
     The tag names the branch: `pos` / `neg-real` / `neg-novirt` / `neg-virt`, suffixed `-same` / `-cross`. -/
 def priceImpactUsd (o : Ops α) (cfg : Config α) (ps : Pool α) (longUsd shortUsd : α) : Except Err (α × String) := do
   let pp ← nextPoolParams ps.longAmount ps.shortAmount ps.longPrice ps.shortPrice longUsd shortUsd
+  if impactPowRaises o cfg pp then throw .overflow
   let (impact, same) := impactOfParams o cfg pp
   let sfx := if same then "-same" else "-cross"
   if impact ≥ 0 then pure (impact, "pos" ++ sfx) else
   match ps.virtualLong, ps.virtualShort with
   | some vl, some vs =>
     let ppv ← nextPoolParams vl vs ps.longPrice ps.shortPrice longUsd shortUsd
+    if impactPowRaises o cfg ppv then throw .overflow
     let (iv, _) := impactOfParams o cfg ppv
     if iv < impact then pure (iv, "neg-virt" ++ sfx) else pure (impact, "neg-real" ++ sfx)
   | _, _ => pure (impact, "neg-novirt" ++ sfx)
@@ -265,6 +277,8 @@ def deposit (o : Ops α) (cx : NumCtx) (cfg : Config α) (ps : Pool α) (longKey
   match mintAmount o cfg ps longAmt shortAmt with
   | .error e => (.error e, s)
   | .ok (r, tag) =>
+    -- a finite amount whose USD value leaves the double range prices to `inf` / `nan`: rejected (035b95e)
+    if !o.isFinite r.gmAmount then (.error .demeter, s) else
     let longBalance := AList.get? s.wallet longKey
     match Wallet.debit cx s.wallet longKey (o.toRat r.longAmount) allowNeg with
     | .error .insufficient => (.error .assertion, s)
